@@ -674,7 +674,11 @@ def finish(prop, tier, units, t0, extra_cov=None, assumptions=(), not_covered=()
             tag = "%s_%s" % (prop, re.sub(r"[^A-Za-z0-9_.]", "_", u.name))
             rpath = os.path.join(VERIF, "replay", tag + ".json")
             rc, rout = native_replay(u, u.inputs, os.path.join(VERIF, "replay"), tag) if u.inputs or u.replay else (None, "verifier gave no input assignment")
-            reproduced = (rc == 1)
+            # exit 1 = oracle violated on the real code; a negative exit is a trap (SIGFPE/SIGSEGV) of the
+            # real code on an input that satisfies the harness assumptions - also a reproduction
+            reproduced = (rc == 1) or (isinstance(rc, int) and rc < 0 and rc != -9)
+            if isinstance(rc, int) and rc < 0 and rc != -9:
+                rout = (rout or "") + "\nREPRODUCED on real code: the real function trapped (signal %d) on this input" % (-rc)
             rep = {"property": prop, "unit": u.name, "entry": u.entry,
                    "failed_obligations": [{k2: v for k2, v in o.items() if k2 not in ("inputs",)} for o in u.failed],
                    "mode": u.mode, "backend": u.backend, "inputs": u.inputs,
